@@ -110,6 +110,7 @@ enum { K_DEFAULT = 1, K_COPY = 2, K_MOVE = 4, K_ASSIGN_COPY = 8, K_ASSIGN_MOVE =
 /* ---- lowering support --------------------------------------------------------------------- */
 #define NOEXCEPT_VIOLATION(fn) do { __CPROVER_assert (0, "noexcept_violation " fn " [C18]: exception leaves a noexcept function (std::terminate)"); __CPROVER_assume (0); } while (0)
 void env_fresh_object (const void *obj);     /* a new local object holds no live element */
-void env_track_temp (Elem *cell);            /* the cell of a stack_/heap_temporary becomes WP[WT] */
+void env_track_temp (Elem *cell);
+void env_untrack_temp (void);                 /* at the temporary's destruction: its cell must be raw again */            /* the cell of a stack_/heap_temporary becomes WP[WT] */
 
 #endif
